@@ -7,7 +7,7 @@ from ..core import Ctx, Prop
 
 # what may follow what: the alphabet of the statement, with the obvious well-formedness of a test program
 # (operations and bodies only while connected; entering a context only while not inside one)
-ACTIONS = ["connect", "refused", "enter", "enter-refused", "op-ok", "op-raises", "leave", "body-raises", "disconnect"]
+ACTIONS = ["connect", "refused", "enter", "enter-refused", "op-ok", "op-raises", "leave", "body-raises", "disconnect", "refused-while-connected"]
 
 
 def words(n):
@@ -27,7 +27,7 @@ def words(n):
                 if is_open or in_ctx:
                     continue
                 rec(prefix + [a], a == "enter", a == "enter")
-            elif a in ("op-ok", "op-raises"):
+            elif a in ("op-ok", "op-raises", "refused-while-connected"):
                 if not is_open:
                     continue
                 rec(prefix + [a], True, in_ctx)
@@ -53,7 +53,7 @@ class C18(Prop):
             "TCP (real end-of-stream at the fake device, real refusal); `connected` is read after every action. "
             "distinct = distinct events; non-trivial = connect / disconnect / flag observations")
     assumptions = [
-        "connect while already connected is outside the statement's alphabet",
+        "a SUCCESSFUL connect while already connected is outside the statement's alphabet; a refused one is in it (nothing may change)",
         "a refused connection is produced by closing the listening socket at the device's address for the duration of the call",
         "loopback portion: 127.x.y.z:9957/10000 private to this process; end-of-stream is awaited for at most 2 s",
     ]
